@@ -69,6 +69,36 @@ def _set_threads(on):
         pass
 
 
+# --- the configuration "as shipped" (copied from harness/c12.py, crash-builder): what `import signac` sets up
+_CLASSES = ("signac.JSONDict", "cj.JSONAttrDict", "cj.BufferedJSONAttrDict", "cj.JSONDict", "cj.BufferedJSONDict", "_StatePointDict")
+_SHIPPED = []
+
+
+def shipped_threads():
+    """Thread-support flags of the JSON classes exactly as `import signac` leaves them in a FRESH interpreter of
+    the tree under test (this process has toggled them for the ON / OFF configurations)."""
+    if not _SHIPPED:
+        import subprocess
+        import sys
+        code = ("import json, signac\nfrom signac.job import _StatePointDict\n"
+                "from synced_collections.backends import collection_json as cj\n"
+                "print(json.dumps([bool(c._threading_support_is_active) for c in (%s)]))" % ", ".join(_CLASSES))
+        out = subprocess.run([sys.executable, "-c", code], capture_output=True, text=True, timeout=300, check=True).stdout
+        _SHIPPED.append(json.loads(out.strip().splitlines()[-1]))
+    return _SHIPPED[0]
+
+
+def apply_threads(flags):
+    """Re-establish exactly these flags, touching nothing else."""
+    import signac
+    from signac.job import _StatePointDict
+    from synced_collections.backends import collection_json as cj
+
+    classes = (signac.JSONDict, cj.JSONAttrDict, cj.BufferedJSONAttrDict, cj.JSONDict, cj.BufferedJSONDict, _StatePointDict)
+    for cls, on in zip(classes, flags):
+        (cls.enable_multithreading if on else cls.disable_multithreading)()
+
+
 def _write_plain(path, doc):
     with open(path, "wb") as fh:
         fh.write(json.dumps(doc).encode())
@@ -415,7 +445,15 @@ def run_scenario(desc, work):
     """Returns a list of Cases (one per write episode of a document / cache file)."""
     thr = desc.get("threads", True)
     cases = []
-    _set_threads(thr)
+    if thr == "shipped":
+        # the configuration users get: the flags of a fresh `import signac` of the tree under test
+        flags = desc.get("shipped_flags") or shipped_threads()
+        apply_threads(flags)
+        desc = dict(desc, shipped_flags=list(flags))
+        thr_model = bool(flags[2])          # BufferedJSONAttrDict: the class of documents and of the raw scenarios
+    else:
+        _set_threads(thr)
+        thr_model = bool(thr)
     try:
         root = os.path.join(work, "p")
         os.makedirs(root)
